@@ -402,8 +402,14 @@ func (l *leader) notifyFlr(includeConfig bool) {
 	for _, repl := range l.repls {
 		select {
 		case repl.leaderUpdateCh <- update:
-		case <-repl.leaderUpdateCh:
-			repl.leaderUpdateCh <- update
+		case pending := <-repl.leaderUpdateCh:
+			// the newer update replaces one the replication has not seen
+			// yet: a configuration that one carried must not get lost
+			u := update
+			if u.config == nil {
+				u.config = pending.config
+			}
+			repl.leaderUpdateCh <- u
 		}
 		if trace {
 			println(l, update, repl.status.id)
